@@ -87,6 +87,11 @@ CHECKS['C03'] = ('model_checking', '§5 C03',
     'Named functions get program-unique names (same-named functions aggregate into overloads: C05). Creating a lambda that depends on an unfulfilled forward declaration is expected to be a compilation error. Two known findings (C03-K1, C03-K2) concern forward declarations inside function bodies.',
     'bounded-exhaustive enumeration of declaration trees vs reference evaluator (persistent environments)')
 
+CHECKS['C04'] = ('model_checking', '§5 C04',
+    'Compile-only lock-step with a reference relation written from the documented rules (mc/model/types.py: assignability, least common type, generic binding). A: the complete (required, supplied) matrix over a type universe closed under Sequence / Optional / Generator / Stack / Mapping / Set / tuples of 0-3 / callables (written types, lambdas, named functions with optional parameters) / generic structs and unions with 0-2 parameters / the bottom type, to nesting depth 1 (quick, 57x62 types) or 2 (thorough, ~300x330 types), in 8 syntactic positions with a literal witness (let, argument, struct field, variant payload, return, default value, lambda return, method argument) and 5 with a parameter of the supplied type; B: 10 generic signature shapes x all argument tuples over a pool, result type probed (accepted at the expected type, rejected at single-leaf variations); C: 6 type-inferring forms (sequence literals of 2 and 3, if, concatenation, push, mapping set) x all part combinations with probes; D: calls through function values (parameter, let-bound lambda, element, immediate, struct field, named alias) x all argument tuples of arity 0-3; E: construction of compounds whose parameter occurs in several fields / variants, field counts, same-named declarations in different scopes. Accepted iff the reference says assignable.',
+    'Error classes are not compared, only acceptance. A supplied type without a literal witness is only supplied as a parameter. Where two callables have identical component types but different optional-parameter windows the common type is treated as unspecified.',
+    'bounded-exhaustive enumeration of type pairs / tuples vs reference relation')
+
 NA = {
 }
 
